@@ -405,7 +405,7 @@ def bfe_values(u: Unit):
                 u.undecide(f"bfe.values.returned_as_evaluated[chunk {chunk}]", fi.qualname, f"the returned vector is not the flattened result of the generalised fitness function: {str(getattr(v, 'info', {}).get('label'))[:120]}")
                 continue
             g = src.info["fn"]
-            first = (g.info.get("args") or [None])[0]
+            first = (g.info.get("args") or [None])[0] if g.info.get("args") else (g.info.get("kwargs") or {}).get("pyfunc")
             ok_f = (isinstance(first, VOpaque) and str(first.info.get("attr", "")) == "fitness") or (isinstance(first, VFunc) and first.fi.name == "fitness")
             u.oblige(p, f"bfe.values.returned_as_evaluated[chunk {chunk}]", bool(ok_f), {}, BFE_REPLAY)
         u.cover(f"bfe.values.cover[chunk {chunk}]", ps, lambda p: p.kind == "return")
